@@ -215,20 +215,38 @@ func scanAggSym(c *core.Ctx) []ob {
 		})
 		// guards: conditions that lead to an error return
 		guardBoth := map[string]bool{} // field projection compared between s1 and s2
-		ast.Inspect(fd.Body, func(nd ast.Node) bool {
-			is, ok := nd.(*ast.IfStmt)
-			if !ok {
-				return true
-			}
-			leaves := false
-			for _, st := range is.Body.List {
+		// a guard is the condition of an if, or of a clause of a tagless switch, whose block returns
+		type guardCond struct{ cond ast.Expr }
+		var guardConds []guardCond
+		returns := func(list []ast.Stmt) bool {
+			for _, st := range list {
 				if _, ok := st.(*ast.ReturnStmt); ok {
-					leaves = true
+					return true
 				}
 			}
-			if !leaves {
-				return true
+			return false
+		}
+		ast.Inspect(fd.Body, func(nd ast.Node) bool {
+			switch v := nd.(type) {
+			case *ast.IfStmt:
+				if returns(v.Body.List) {
+					guardConds = append(guardConds, guardCond{v.Cond})
+				}
+			case *ast.SwitchStmt:
+				if v.Tag == nil {
+					for _, cl := range v.Body.List {
+						if cc, ok := cl.(*ast.CaseClause); ok && returns(cc.Body) {
+							for _, e := range cc.List {
+								guardConds = append(guardConds, guardCond{e})
+							}
+						}
+					}
+				}
 			}
+			return true
+		})
+		for _, gc := range guardConds {
+			is := struct{ Cond ast.Expr }{gc.cond}
 			mentions := [3]bool{}
 			ast.Inspect(is.Cond, func(x ast.Node) bool {
 				if id, ok := x.(*ast.Ident); ok {
@@ -266,8 +284,7 @@ func scanAggSym(c *core.Ctx) []ob {
 			if (mentions[0] || mentions[1]) && !(mentions[0] && mentions[1]) {
 				problems = append(problems, fmt.Sprintf("the guard `%s` mentions only one of the two input shares: a mismatched second share is never rejected", exprString(is.Cond)))
 			}
-			return true
-		})
+		}
 		for _, cp := range copies {
 			if !guardBoth[cp.field] {
 				problems = append(problems, fmt.Sprintf("output field %s is copied from one input without first checking that both inputs agree on it", cp.field))
